@@ -1790,7 +1790,71 @@ fn bulk_for<T: Cat + Clone + DecodeAll + DecodeLimit>(ctx: &mut Ctx, name: &'sta
 	arr!(33);
 }
 
+/// Element types that are one primitive wide but do NOT take the bulk paths because their decoder
+/// validates (`bool`, `OptionBool`, `NonZero*`): sequences and arrays of them must decode exactly
+/// like their element-wise twins on ANY bytes - in particular on bytes that are not valid elements.
+fn bulk_validating<T: Cat + Clone>(ctx: &mut Ctx, name: &'static str) {
+	use crate::derived::Twin;
+	use std::collections::VecDeque;
+	let mut g = G::new(ctx.seed ^ 0xB01D ^ name.len() as u64, 4);
+	let rounds = if ctx.tier_thorough { 600 } else { 80 };
+	for r in 0..rounds {
+		let n = [0usize, 1, 2, 3, 5, 8, 33][r % 7];
+		let xs: Vec<T> = (0..n).map(|_| T::gen(&mut g)).collect();
+		let mut bs = xs.encode();
+		if xs.encode() != xs.iter().cloned().map(Twin).collect::<Vec<_>>().encode() {
+			ctx.oracle_fail("C07", format!("Vec<{}>: encoding differs from the element-wise twin", name));
+		}
+		// damage element bytes (keep the count): every value 0..=255 turns up somewhere
+		if r % 2 == 1 && bs.len() > 1 {
+			for _ in 0..1 + g.rng.below(3) {
+				let i = 1 + g.rng.below(bs.len() as u64 - 1) as usize;
+				bs[i] = [0u8, 1, 2, 3, 4, 0x7f, 0x80, 0xff][g.rng.below(8) as usize];
+			}
+		}
+		macro_rules! same {
+			($a:ty, $b:ty, $what:expr) => {{
+				let (a1, d1) = dec_answer::<$a>(&bs);
+				let (a2, d2) = dec_answer::<$b>(&bs);
+				ctx.emit("bulk-dec", name, &format!("dec {} {}", <$a>::ty(2), hex_or_dash(&bs)), &a1);
+				let same = match (&d1, &d2) {
+					(Some((v1, r1)), Some((v2, r2))) => r1 == r2 && val_string(v1, true).replace("L 1 ", "") == val_string(v2, true).replace("L 1 ", ""),
+					(None, None) => a1 == a2,
+					_ => false,
+				};
+				if !same {
+					ctx.oracle_fail("C07", format!("{} of {}: decoding {} disagrees with the element-wise twin: {} vs {}", $what, name, hex_or_dash(&bs), &a1[..a1.len().min(40)], &a2[..a2.len().min(40)]));
+				}
+			}};
+		}
+		same!(Vec<T>, Vec<Twin<T>>, "Vec");
+		same!(VecDeque<T>, VecDeque<Twin<T>>, "VecDeque");
+		if bs.len() >= 4 {
+			let tail = bs[1..].to_vec();
+			let bs = tail;
+			let (a1, d1) = dec_answer::<[T; 3]>(&bs);
+			let (a2, d2) = dec_answer::<[Twin<T>; 3]>(&bs);
+			ctx.emit("bulk-dec", name, &format!("dec {} {}", <[T; 3]>::ty(2), hex_or_dash(&bs)), &a1);
+			let same = match (&d1, &d2) {
+				(Some((v1, r1)), Some((v2, r2))) => r1 == r2 && val_string(v1, true).replace("L 1 ", "") == val_string(v2, true).replace("L 1 ", ""),
+				(None, None) => a1 == a2,
+				_ => false,
+			};
+			if !same {
+				ctx.oracle_fail("C07", format!("[{}; 3]: decoding {} disagrees with the element-wise twin: {} vs {}", name, hex_or_dash(&bs), &a1[..a1.len().min(40)], &a2[..a2.len().min(40)]));
+			}
+		}
+	}
+}
+
 fn bulk_stream(ctx: &mut Ctx) {
+	bulk_validating::<bool>(ctx, "bool");
+	bulk_validating::<parity_scale_codec::OptionBool>(ctx, "OptionBool");
+	bulk_validating::<core::num::NonZeroU8>(ctx, "NonZeroU8");
+	bulk_validating::<core::num::NonZeroI8>(ctx, "NonZeroI8");
+	bulk_validating::<core::num::NonZeroU32>(ctx, "NonZeroU32");
+	bulk_validating::<core::num::NonZeroU64>(ctx, "NonZeroU64");
+	bulk_validating::<Option<bool>>(ctx, "Option<bool>");
 	bulk_for::<u8>(ctx, "u8");
 	bulk_for::<i8>(ctx, "i8");
 	bulk_for::<u16>(ctx, "u16");
